@@ -53,11 +53,13 @@ WidthBits == BitLen(N)
 
 Bit(mask, m) == (mask \div Pow2(m)) % 2 = 1
 ClassIdx(s) == IF s = NONE THEN 1 ELSE s + 2
-Defines(s, m) == IF s = NONE /\ ~HasHead THEN FALSE ELSE Bit(DefMask[ClassIdx(s)], m)
-Injections(s) == IF s = NONE /\ ~HasHead THEN 0 ELSE InjCnt[ClassIdx(s)]
+\* (total: an id that names no class - possible only in a trace recorded from a defective implementation - defines nothing)
+KnownClass(s) == (s = NONE /\ HasHead) \/ (s # NONE /\ s \in States)
+Defines(s, m) == IF KnownClass(s) THEN Bit(DefMask[ClassIdx(s)], m) ELSE FALSE
+Injections(s) == IF KnownClass(s) THEN InjCnt[ClassIdx(s)] ELSE 0
 \* non-verbose logging records a delivery iff &Head::method is not EmptyT's own
 \* (the react family and query are cast to Head's member-pointer type before logging, so they are always recorded)
-LogDefined(s, m) == IF s = NONE /\ ~HasHead THEN FALSE
+LogDefined(s, m) == IF ~KnownClass(s) THEN FALSE
                     ELSE Defines(s, m) \/ Injections(s) >= 1 \/ m \in {M_PRE_REACT, M_REACT, M_POST_REACT, M_QUERY}
 
 \* control flavour handed to callback m: 0 const, 1 plan, 2 full, 3 guard
